@@ -17,6 +17,9 @@ use crate::simfs::{FaultMode, SimFs};
 use crate::trace::TraceSink;
 use crate::universe::Universe;
 
+/// `--read-faults`: read calls are faultable operations too
+pub static READ_FAULTS: std::sync::atomic::AtomicBool = std::sync::atomic::AtomicBool::new(false);
+
 pub struct FaultPlan {
     pub seed: u64,
     pub opts: OptSet,
@@ -127,6 +130,7 @@ pub fn run_fault(
     let fs = SimFs::new(ROOT);
     fs.attach(Some(Arc::clone(&sink)));
     fs.record_oplog(record_classes);
+    fs.set_read_faults(READ_FAULTS.load(std::sync::atomic::Ordering::Relaxed));
     raindb::verif::install(
         ROOT,
         Arc::new(crate::trace::SinkObserver {
